@@ -201,7 +201,7 @@ def _order(man, d):
 def kernel_cases(ctx):
     g = ctx.gen
     r = g.r
-    n = ctx.n(150, 1500)
+    n = ctx.n(100, 1500)
     M = ctx.manifests
 
     def emit(name, dicts, tol=None):
@@ -368,8 +368,8 @@ def system_checks(ctx):
     res2 = {'name': 'property-oracle-on-implementation', 'n': 0, 'nontrivial': 0, 'samples': [], 'disagreements': [],
             'histogram': {}}
     clauses = {}
-    extra = _histories(ctx, ctx.n(60, 800), salt=5, focus='solve') + _histories(ctx, ctx.n(60, 800), salt=6, focus='pickup') \
-        + _histories(ctx, ctx.n(40, 600), salt=7, focus='index')
+    extra = _histories(ctx, ctx.n(50, 800), salt=5, focus='solve') + _histories(ctx, ctx.n(50, 800), salt=6, focus='pickup') \
+        + _histories(ctx, ctx.n(30, 600), salt=7, focus='index')
     seen_ids = set()
     for h in hists + extra:
         res2['n'] += len(h['ops'])
